@@ -2,6 +2,7 @@
 from __future__ import annotations
 
 import os
+import time
 
 from hypothesis import strategies as st
 
@@ -190,6 +191,13 @@ def check_case(case, ctx):
                 form = forms[(p if p >= 0 else 0) % len(forms)]
                 with open(path, "wb") as f:
                     f.write(data)
+                # the stamp of the cut-off file: just written, or written by a machine whose clock runs ahead (a file
+                # server's, or ours before it was set back), or a while ago - inside the lifetime all the same
+                stamp = (0, 90, -50000, 3600)[(max(p, 0) // of) % 4]
+                if stamp:
+                    now = time.time()
+                    os.utime(path, (now + stamp, now + stamp))
+                    ctx.label("stamp:%+d" % stamp)
                 r = _listing(cfg, form, sel)
                 ctx.count("prefixes_tried")
                 ctx.evaluations += 1
